@@ -355,6 +355,11 @@ pub fn plan(prop: &str, tier: &str) -> Option<Plan> {
                     s.push(e1(prop, "u32", H_TAG, 0, "look1+mut+ch1+bulk+shape", &fl, if prof == "asan" { 48 } else { 64 }, 1, 1, prof, 45.0));
                     s.push(as_set(e1(prop, "tk", H_GOOD, 0, "skey+sshape", &fl, if prof == "asan" { 33 } else { 64 }, 1, 1, prof, 45.0)));
                     s.push(e1(prop, "tk", H_GOOD, 0, "wrong/look1+mut+ch0+shape+iterlite", &fl, if prof == "asan" { 16 } else { 31 }, 2, 0, prof, 45.0));
+                    if prof == "chk" {
+                        s.push(e1(prop, "tk", H_GOOD, 0, "rmold/look1+mut1+ch0+iterlite+clone", &fl, 72, 2, 0, prof, 45.0));
+                    } else {
+                        s.push(e1(prop, "tk", H_GOOD, 0, "rmold", &fl, 72, 1, 0, prof, 45.0));
+                    }
                     s.push(as_set(e2(prop, "tk", H_LOW, "skey+sshape2", &fl, 3, prof, 45.0)));
                     s.push(as_set(e2(prop, "zst", H_GOOD, "skey+sshape2", &fl, 1, prof, 45.0)));
                 }
@@ -413,6 +418,8 @@ pub fn plan(prop: &str, tier: &str) -> Option<Plan> {
                     s.push(e1(prop, "u32", hk, 0, a, &[], 33, 2, 1, "chk", 45.0));
                 }
                 s.push(e1(prop, "u32", H_GOOD, 0, "iter", &[], 130, 1, 0, "chk", 45.0));
+                s.push(e1(prop, "u32", H_GOOD, 0, "rmold/iter", &["cursor"], 72, 2, 0, "chk", 45.0));
+                s.push(e1(prop, "u32", H_LOW, 0, "rmold/iter", &["cursor"], 72, 2, 0, "chk", 45.0));
                 s.push(e1(prop, "tk", H_GOOD, 0, a, &[], 31, 2, 1, "chk", 45.0));
                 s.push(e2(prop, "u32", H_GOOD, "mut1+ch0+shape2+iter", &[], 3, "chk", 45.0));
                 s.push(e2(prop, "zst", H_GOOD, "mut+bulk2+shape2+iter", &[], 1, "chk", 45.0));
@@ -446,6 +453,8 @@ pub fn plan(prop: &str, tier: &str) -> Option<Plan> {
                     s.push(e1(prop, "u32", hk, 0, "pred", &["cursor"], 64, 1, 0, "chk", 45.0));
                 }
                 s.push(e1(prop, "u32", H_GOOD, 0, "pred", &["cursor"], 130, 1, 0, "chk", 45.0));
+                s.push(e1(prop, "u32", H_GOOD, 0, "rmold/predlite", &["cursor"], 72, 2, 0, "chk", 45.0));
+                s.push(e1(prop, "u32", H_LOW, 0, "rmold/predlite", &["cursor"], 72, 2, 0, "chk", 45.0));
                 s.push(e1(prop, "tk", H_GOOD, 0, "pred", &["cursor"], 64, 1, 0, "chk", 45.0));
                 s.push(e2(prop, "u32", H_GOOD, "mut1+ch0+shape2+pred", &["cursor"], 3, "chk", 45.0));
                 bounds = json!({"E1": "all predicates (incl. 2^k subsets of class representatives) at every point of the growth path to N=64 (4 hashers) / 130, and structural predicates after <=1 deviation up to N=18", "E2": "fixpoint u=3"});
